@@ -264,6 +264,12 @@ def amen_solve(A, b, nswp=22, x0=None, eps=1e-10, rmax=32768, max_full=500, kick
         raise ShapeMismatch('A is not quadratic.')
     if A.N != b.N:
         raise ShapeMismatch('Dimension mismatch.')
+    if x0 is not None and (not isinstance(x0, torchtt.TT) or x0.is_ttm or x0.N != b.N):
+        raise ShapeMismatch('The initial guess must be a TT tensor of the shape of b.')
+    if preconditioner not in (None, 'c', 'r'):
+        raise InvalidArguments("Invalid preconditioner.")
+    if local_solver not in (1, 2):
+        raise InvalidArguments('Solver not implemented.')
 
     if use_cpp and _flag_use_cpp:
         if x0 == None:
